@@ -31,6 +31,21 @@ impl Configuration {
         Self { incoming, outgoing }
     }
 
+    /// Verification hook: builds a joint configuration from its two halves.
+    #[cfg(tikv_raft_rs_verif)]
+    pub fn verif_new_joint(incoming: HashSet<u64>, outgoing: HashSet<u64>) -> Configuration {
+        Configuration {
+            incoming: MajorityConfig::new(incoming),
+            outgoing: MajorityConfig::new(outgoing),
+        }
+    }
+
+    /// Verification hook: the two halves `(incoming, outgoing)` as id lists.
+    #[cfg(tikv_raft_rs_verif)]
+    pub fn verif_halves(&self) -> (Vec<u64>, Vec<u64>) {
+        (self.incoming.raw_slice(), self.outgoing.raw_slice())
+    }
+
     /// Creates an empty configuration with given capacity.
     pub fn with_capacity(cap: usize) -> Configuration {
         Configuration {
